@@ -129,7 +129,19 @@ def root_local_of_arg(b, site, k):
     return l
 
 
+def try_from_stores_input(cx):
+    """shared with C09 (Series1 fits pair x[i] with y[i]; Series1::try_new compares the lengths BEFORE the conversion): the conversion keeps every value"""
+    b = cx.fn(f'{DD}::try_from')
+    if b:
+        lits = b.aggregates(DD)
+        ok = len(lits) == 1 and match('(agg * (values (param values)))', cx.aggval(lits[0])) is not None
+        cx.ob('CONSTRUCT', 'DiscreteDomain::try_from:stores-input', ok,
+              'try_from stores the vector it was handed, element for element (no sorting, merging or dropping: callers pair the abscissae with ordinates by position)',
+              where=b.file, found='; '.join(show(cx.aggval(l_)) for l_ in lits))
+
+
 def run(cx):
+    try_from_stores_input(cx)
     # ---------------------------------------------------------------- ENC
     sites = E.enc(cx, DD, ('values',), constructors=[f'{DD}::try_from', f'{DD}::linear', 'common::discrete_domain::linear_space']) or []
     w = E.field_writers(cx, DD, ('values',), direct=True)
